@@ -143,16 +143,16 @@ def observe(case):
     if isinstance(r, bool):
         r = int(r)
     if isinstance(r, int):
-        return {"t": "int", "b": limbs(r), "q": [0, 0], "whole": none_whole}
+        return {"t": "int", "b": limbs(r), "q": [0, 0], "whole": none_whole, "neg": r < 0}
     if isinstance(r, float):
         if r != r:
             return {"t": "nan"}
         if r in (float("inf"), float("-inf")):
-            return {"t": "inf"}
+            return {"t": "inf", "neg": r < 0}
         q = recover(r)
         whole = {"ok": True, "b": limbs(int(r))} if r == int(r) else none_whole
         fn, fd = r.as_integer_ratio()
-        return {"t": "float", "b": limbs(0), "q": q, "whole": whole, "fn": limbs(fn), "fd": limbs(fd)}
+        return {"t": "float", "b": limbs(0), "q": q, "whole": whole, "fn": limbs(fn), "fd": limbs(fd), "neg": math.copysign(1.0, r) < 0}
     return {"t": "exc", "cls": "returned:" + type(r).__name__}
 
 
@@ -231,6 +231,22 @@ def domain(ctx):
             cases.append({"term": ("div", ("abs", V("x")), ("sub", V("y"), V("y"))), "ctx": {"x": x, "y": y}})
             cases.append({"term": ("div", ("pow", V("x"), C(2)), ("mul", V("y"), C(0))), "ctx": {"x": x, "y": y}})
             cases.append({"term": ("add", ("div", ("neg", ("pow", V("x"), C(3))), ("pow", V("y"), C(2))), C(1)), "ctx": {"x": x, "y": y}})
+    # zeros that carry a sign (0.0 * negative = -0.0) and infinities under abs / powers: the sign of the result is part of the IEEE result
+    for x in (0.0, 0, 2.0, -2.0, 1e-200):
+        for y in (-3.0, 3.0, -1e-200, 0.0, -0.5):
+            z = ("mul", V("x"), V("y"))
+            cx = {"x": x, "y": y}
+            cases.append({"term": ("abs", z), "ctx": cx})
+            for e in (-1, -2, 2, 0.5, -0.5, 0):
+                cases.append({"term": ("pow", ("abs", z), C(e)), "ctx": cx})
+            cases.append({"term": ("add", ("abs", z), ("abs", V("x"))), "ctx": cx})
+            cases.append({"term": ("mul", ("abs", z), C(2.5)), "ctx": cx})
+            cases.append({"term": ("div", ("abs", z), C(4)), "ctx": cx})
+            cases.append({"term": ("abs", ("neg", ("abs", z))), "ctx": cx})
+            cases.append({"term": ("abs", ("div", z, C(7))), "ctx": cx})
+            cases.append({"term": ("abs", ("sub", V("x"), V("x"))), "ctx": cx})
+            cases.append({"term": ("pow", ("abs", ("neg", V("x"))), C(-1)), "ctx": cx})
+            cases.append({"term": ("abs", ("pow", C(10.0), C(400))), "ctx": {}})
     # factorials feeding arithmetic beyond 64 bits
     for n in (15, 18, 20):
         cases.append({"term": ("mul", ("fact", C(n)), V("x")), "ctx": {"x": 20}})
